@@ -368,6 +368,34 @@ Definition diverge_verdict (u : run) : nat * string :=
   | VExtra pos =>
       if existsb (fun p => observable (fst p)) (skipn pos (u_trace u)) then (1, "the implementation goes on where the specification has finished") else (0, "")
   end.
+(* C10, "with the documented status": where the response of the implementation - a status, a header, the body, or the
+   (handled, error) result - leaves the model's, whose outcomes the theorems of C10 characterise *)
+Definition is_response (e : ev) : bool := match e with EWriteHeader _ | ESetHeader _ _ | EWrite _ => true | _ => false end.
+Definition resp_summary (e : ev) : string :=
+  match e with
+  | EWriteHeader n => if Nat.eqb n 200 then "status 200" else if Nat.eqb n 201 then "status 201" else if Nat.eqb n 400 then "status 400"
+                      else if Nat.eqb n 403 then "status 403" else if Nat.eqb n 404 then "status 404" else if Nat.eqb n 405 then "status 405"
+                      else if Nat.eqb n 410 then "status 410" else "another status"
+  | _ => ev_summary e
+  end.
+Definition status_verdict (u : run) : nat * string :=
+  if negb (is_http u) then (0, "") else
+  match check_run u with
+  | VAgree => (0, "")
+  | VResult h r => (1, ("documented outcome: " ++ (if h then "handled, " else "not handled, ") ++ r ++ "; implementation: " ++ (if u_handled u then "handled, " else "not handled, ") ++ u_result u)%string)
+  | VMismatch pos e =>
+      match nth_error (u_trace u) pos with
+      | Some (e', _) => if is_response e || is_response e' then (1, ("documented: " ++ resp_summary e ++ "; implementation: " ++ resp_summary e')%string) else (0, "")
+      | None => if is_response e then (1, ("documented: " ++ resp_summary e ++ "; implementation: returns without it")%string) else (0, "")
+      end
+  | VExtra pos =>
+      match find (fun p => is_response (fst p)) (skipn pos (u_trace u)) with
+      | Some (e', _) => (1, ("documented: nothing further written; implementation: " ++ resp_summary e')%string)
+      | None => (0, "")
+      end
+  end.
+Definition status_bad := Eval vm_compute in
+  filter (fun x => Nat.eqb (fst (snd x)) 1) (map (fun p => (fst p, status_verdict (snd p))) (combine (seq 0 (length observed)) observed)).
 Definition diverge_bad := Eval vm_compute in
   filter (fun x => Nat.eqb (fst (snd x)) 1) (map (fun p => (fst p, diverge_verdict (snd p))) (combine (seq 0 (length observed)) observed)).
 (* C04 on a recorded inbox run: the part of the trace in which the default callback ran *)
@@ -611,4 +639,5 @@ Print sequence_bad.
 Print forward_stats.
 Print authority_bad.
 Print diverge_bad.
+Print status_bad.
 Print n_observed.
